@@ -61,6 +61,16 @@ def model(name, classes=(0, 1), seed=0):
             # (NadarayaWatsonRegressor predicts NaN without any label -- documented: "with at least one label")
             SklearnRegressor(DecisionTreeRegressor(min_samples_leaf=2, random_state=seed), random_state=seed),
         ]
+    if name in ("dtc_cost", "pwc_cost", "knn_cost"):
+        # cost-sensitive decisions: exact ties in the expected costs are broken by the classifier's own generator
+        from sklearn.neighbors import KNeighborsClassifier
+        from sklearn.tree import DecisionTreeClassifier
+
+        cm = [[0.0, 1.0], [1.0, 0.0]] if len(classes) == 2 else (1 - np.eye(len(classes))).tolist()
+        if name == "pwc_cost":
+            return ParzenWindowClassifier(classes=classes, cost_matrix=cm, random_state=seed)
+        est = DecisionTreeClassifier(random_state=seed) if name == "dtc_cost" else KNeighborsClassifier(n_neighbors=2)
+        return SklearnClassifier(est, classes=classes, cost_matrix=cm, random_state=seed)
     if name == "disc":
         return ParzenWindowClassifier(classes=[0, 1], random_state=seed)
     raise KeyError(name)
